@@ -42,6 +42,12 @@ template <class SM> inline std::string snap_machine(SM& m, int mid) {
     return s;
 }
 template <class SM> inline int raw_seq(SM& m) { return defq_seq(m.m_deferred_events_queue, 0); }
+template <class H> inline auto defq_cap(H& h, int n, int) -> decltype(h.m_cur_seq, void()) { h.m_deferred_events_queue.set_capacity(n); }
+template <class H> inline void defq_cap(H&, int, long) {}
+template <class SM> inline void set_capacity(SM& m, int n) {
+    m.get_message_queue().set_capacity(n);
+    defq_cap(m.m_deferred_events_queue, n, 0);
+}
 
 template <class SM> inline std::string visit_ids(SM& m) {
     Visitor v;
